@@ -230,6 +230,17 @@ Proof.
   - apply handle_leaf_list_np. exact H.
 Qed.
 
+(* the guarded read of TypeOpts[0] never fails, so the conversion at a model entry is the conversion *)
+Lemma to_native_at_eq r v : to_native_at r v = to_native v.
+Proof.
+  unfold to_native_at. destruct (reads_type_opts v); [|reflexivity].
+  destruct (rw_opts r); reflexivity.
+Qed.
+
+(* ... and the guard has content *)
+Example type_opt0_needs_guard : type_opt0 false [] = Panic w_index /\ forall opts, np (type_opt0 true opts).
+Proof. split; [reflexivity | intros [|x o]; reflexivity]. Qed.
+
 (* a value accepted by the conversion has a precision strDecimal64 can divide by *)
 Lemma to_native_dec_guard v nv : to_native v = Ok nv -> np (dec_guard nv).
 Proof.
@@ -266,12 +277,12 @@ Proof.
   unfold do_update. np_step; [apply full_path_np; assumption|].
   assert (Htyped : np (r <- find_path_from_model a rw true ;;
                        match r with
-                       | (_, Some rp) => nv <- to_native (u_val u) ;; _ <- check_key_value a rp nv ;; Ok [a]
+                       | (_, Some rp) => nv <- to_native_at rp (u_val u) ;; _ <- check_key_value a rp nv ;; Ok [a]
                        | (_, None) => Panic w_nil
                        end)).
   { np_step; [apply find_path_from_model_np|].
     unfold find_path_from_model in H0. destruct (lookup_rw (anonymize_indices a) rw) eqn:El; [|discriminate].
-    injection H0 as <-. np_step; [apply to_native_np; destruct (u_val u); [exact Hv | exact I]|].
+    injection H0 as <-. rewrite to_native_at_eq. np_step; [apply to_native_np; destruct (u_val u); [exact Hv | exact I]|].
     np_step; [|np_step]. apply check_key_value_np. eapply to_native_dec_guard; eassumption. }
   destruct (u_val u) as [[s|j|l]|]; try exact Htyped.
   np_step; [apply json_base_path_np|]. destruct (u_plugin u); [apply np_err | apply np_ok].
@@ -603,7 +614,7 @@ Qed.
 Definition ex_env : env :=
   Build_env [Build_target (B "t1") (B "devicesim") (B "1.0.0")]
             [Build_plugin (B "devicesim") (B "1.0.0")
-                          [Build_rwpath (B "/list[k=*]/k") true (B "k"); Build_rwpath (B "/list[k=*]/v") false []; Build_rwpath (B "/foo") false []]] 0.
+                          [Build_rwpath (B "/list[k=*]/k") true (B "k") []; Build_rwpath (B "/list[k=*]/v") false [] []; Build_rwpath (B "/foo") false [] []]] 0.
 
 Definition ex_set : set_req :=
   Build_set_req None
